@@ -592,6 +592,23 @@ def run_container(doc, log):
             raise Violation(PROP, "round-trip", f"read(..., cellblock={blk}): {len(mk.points)} points for {npts_file} in the file, or cells paired with other points", site="read.container.cellblock")
     log.count("single-block-of-container-read")
     log.count("merged-container-read")
+    # three meshes, written the default way (cells of one type stacked into one block), in a
+    # seed-derived order - two meshes of one type need not be neighbours in the list
+    m3 = fem.Mesh(m.points + np.eye(m.dim)[0] * 5 * width, m.cells, m.cell_type)
+    order = ([m, m2, m3], [m, m3, m2], [m2, m, m3], [m3, m2, m])[pick(doc["seed"], "container-order", 4)]
+    cont3 = fem.MeshContainer(order)
+    name3 = f"cont3.{fmt}"
+    cont3.as_meshio().write(name3)
+    back3 = fem.mesh.read(name3, dim=m.dim)
+    for ctype in dict.fromkeys(mm_.cell_type for mm_ in order):
+        want = np.concatenate([mm_.points[mm_.cells] for mm_ in order if mm_.cell_type == ctype])
+        blocks = [np.asarray(mk.points)[mk.cells] for mk in back3.meshes if mk.cell_type == ctype]
+        got = np.concatenate(blocks) if blocks else np.zeros((0,) + want.shape[1:])
+        if got.shape != want.shape:
+            raise Violation(PROP, "round-trip", f"container of {[mm_.cell_type for mm_ in order]} written with the default (combined) layout: {got.shape[0]} '{ctype}' cells in the file, the container holds {want.shape[0]}", site="write.container.combined")
+        if not np.allclose(got, want, rtol=0, atol=1e-7):
+            raise Violation(PROP, "round-trip", f"container written with the default (combined) layout: corner coordinates of the '{ctype}' cells changed", site="write.container.combined")
+    log.count("combined-container-written")
     return {"signature": f"container|{m.cell_type}|{m2.cell_type}|{fmt}|{o['second']}", "nontrivial": True}
 
 
